@@ -1102,7 +1102,7 @@ static void Rewrites(vh::Ctx& c) {
         moved = Manifold();
         c.count("deep_unevaluated_trees_destroyed");
       }
-      o.capPlaced = 8000;
+      o.capPlaced = (size_t)n + 200;
       o.ownTris = 6;
       d.countParents();
       std::vector<History> hs;
